@@ -269,7 +269,9 @@ SPEC = dict(
          "differential: 19 mobilizer types (full palette incl. FunctionBased with q-dependent H, coupled functions, a Custom mobilizer) "
          "x forward/reversed x 8 order classes (P_q_P, P_q_P_V, V_u_V, V_q_V, A_q_P_A, P_q_A, A_u_A, random) on one reused State, "
          "digest of everything readable at the final stage compared bit for bit with a fresh State (keys "
-         "matter.history.<Type>.<order>.bits_equal, floor matter.history.coverage_floor); then n random cases from "
+         "matter.history.<Type>.<order>.bits_equal, floor matter.history.coverage_floor); 41 operators taking a const State x 3 "
+         "cases: realize(Acceleration), call the operator with random arguments, digest without re-realizing vs fresh State (keys "
+         "matter.history.constop.<Operator>.bits_equal, floor matter.history.constop.coverage_floor); then n random cases from "
          "VERIF_SEED, one in six a random palette tree with a random matter history, about half plain (1-3 Pin/Slider bodies, 1-2 elements of a subject force type with state parameters + "
          "background elements + Custom probes (position, velocity, position+time, own state parameter) + optional Force::Gravity; "
          "8-25 operations), one in three rich (Pin/Slider/Ball/Free bodies, 1-2 constraints, locks, Euler/quaternion option, event "
